@@ -124,9 +124,8 @@ Path: {self.root_fingerprint.hex()}:{self.root_path}
         self.root_path = parse_binary_path(bin_path)
         if self.depth != len(bin_path) // 4:
             raise ValueError("raw path calculated depth and depth are different")
-        if network is None:
-            self.network = path_network(self.root_path)
-        else:
+        # the extended key's own version bytes say which network it is for
+        if network is not None:
             self.network = network
         self.raw_path = raw_path
         self.sync_point()
